@@ -62,6 +62,10 @@ class AstToODataVisitor(visitor.NodeVisitor):
         # Single quotes inside a string are represented by doubling them:
         return "'" + node.val.replace("'", "''") + "'"
 
+    def visit_Geography(self, node: ast.Geography) -> str:
+        """:meta private:"""
+        return "geography'" + node.val + "'"
+
     def visit_Duration(self, node: ast.Duration) -> str:
         """:meta private:"""
         return "duration'" + node.val + "'"
@@ -188,6 +192,10 @@ class AstToODataVisitor(visitor.NodeVisitor):
             + ", ".join(self.visit(n) for n in node.args)
             + ")"
         )
+
+    def visit_NamedParam(self, node: ast.NamedParam) -> str:
+        """:meta private:"""
+        return self.visit(node.name) + "=" + self.visit(node.param)
 
     def visit_Any(self, node: ast.Any) -> str:
         """:meta private:"""
